@@ -279,7 +279,30 @@ fn soup_strategy() -> BoxedStrategy<String> {
         "u_256", "b_8", "U256", "B8", "1_000", "0xU8 as u8", "1i128", "0xFFFF_FFFF_FFFF_FFFF_FFFF_FFFF_FFFF_FFFBu128", "i8::MAX", "\"B16\"",
     ])
     .prop_map(|s| s.to_string());
-    let leaf = atom.prop_map(|a| if a == "0xU8 as u8" { "0x18 as u8".to_string() } else { a });
+    let fixed = atom.prop_map(|a| if a == "0xU8 as u8" { "0x18 as u8".to_string() } else { a });
+    // generated hexadecimal literals that merely END in B<digits> (all of it hex digits), with
+    // digit-grouping underscores anywhere except directly before the B: plain integers by design
+    let hex_b = ("[0-9a-fA-F]{1,12}", proptest::collection::vec((any::<u8>(), any::<bool>()), 0..3), "[0-9]{1,3}", any::<bool>()).prop_map(|(mut d, us, dec, lead)| {
+        for (pos, _) in us {
+            let p = pos as usize % d.len();
+            d.insert(p, '_');
+        }
+        if lead {
+            d.insert(0, '_');
+        }
+        while d.ends_with('_') {
+            d.pop();
+        }
+        if d.chars().all(|c| c == '_') {
+            d.push('0');
+        }
+        format!("{{ let t: u128 = 0x{d}B{dec}; t }}")
+    });
+    // the same shape with an ordinary integer suffix
+    let hex_b_suffixed = ("[0-9a-fA-F]{1,6}", "[0-9]{1,2}", proptest::sample::select(vec!["u64", "u128", "i128", "usize"]), any::<bool>()).prop_map(|(d, dec, sfx, us)| {
+        format!("0x{d}{}B{dec}_{sfx}", if us { "_" } else { "" })
+    });
+    let leaf = prop_oneof![4 => fixed, 3 => hex_b, 1 => hex_b_suffixed];
     leaf.prop_recursive(4, 24, 4, |inner| {
         prop_oneof![
             proptest::collection::vec(inner.clone(), 1..4).prop_map(|v| format!("({},)", v.join(", "))),
